@@ -9,11 +9,11 @@ open Nomt.BranchUpd (DbNode OutNode Produced Node KF kfReal chs)
 
 variable {V : Type} [CellSize V]
 
-/-- a well-formed, non-empty beatree: well-formed leaves (non-empty, the first under the zero key), a well-formed branch
-level, and the branch level lists exactly the leaves: (separator, page number), left to right -/
+/-- a well-formed beatree (the EMPTY tree — no leaf, no branch node — included): well-formed leaves (none empty, the first
+under the zero key), a well-formed branch level, and the branch level lists exactly the leaves: (separator, page number),
+left to right -/
 structure TreeOK (t : Tree V) : Prop where
   leaves : LeafTreeOK t.leaves
-  ne : t.leaves ≠ []
   index : BranchUpd.DbOK kfReal t.index
   level : t.level = t.leaves.map fun l => (l.sep, t.lpn l.sep)
 
@@ -26,19 +26,17 @@ theorem lvlEnts_level (t : Tree V) : lvlEnts t.level = BranchUpd.flat t.index :=
     congr 1
     simp [BranchUpd.ents, BranchUpd.Item.ent]
 
-theorem TreeOK.index_ne {t : Tree V} (h : TreeOK t) : t.index ≠ [] := by
+theorem TreeOK.index_ne {t : Tree V} (h : TreeOK t) (hne : t.leaves ≠ []) : t.index ≠ [] := by
   intro e
   have := h.level
   unfold Tree.level at this
   rw [e] at this
-  obtain ⟨l, r, hl⟩ := List.exists_cons_of_ne_nil h.ne
+  obtain ⟨l, r, hl⟩ := List.exists_cons_of_ne_nil hne
   rw [hl] at this
   simp at this
 
 theorem TreeOK.index_zero {t : Tree V} (h : TreeOK t) : ∀ n, t.index.head? = some n → n.sep = 0 := by
   intro n hn
-  obtain ⟨l, r, hl⟩ := List.exists_cons_of_ne_nil h.ne
-  have hl0 : l.sep = 0 := h.leaves.zero l (by rw [hl]; rfl)
   cases hi : t.index with
   | nil => rw [hi] at hn; cases hn
   | cons n0 r0 =>
@@ -50,6 +48,11 @@ theorem TreeOK.index_zero {t : Tree V} (h : TreeOK t) : ∀ n, t.index.head? = s
     have hle := hin.2.1 it (by rw [hit]; simp)
     have hlev := h.level
     unfold Tree.level at hlev
+    obtain ⟨l, r, hl⟩ : ∃ l r, t.leaves = l :: r := by
+      cases hl : t.leaves with
+      | nil => rw [hi, hl] at hlev; simp [hit] at hlev
+      | cons l r => exact ⟨l, r, rfl⟩
+    have hl0 : l.sep = 0 := h.leaves.zero l (by rw [hl]; rfl)
     rw [hi, hl] at hlev
     simp only [List.flatMap_cons, hit, List.map_cons, List.cons_append, List.cons.injEq, Prod.mk.injEq] at hlev
     omega
@@ -93,8 +96,8 @@ theorem idxOf_old (fresh : Nat → Nat) (a : Nat) : ∀ (db : List DbNode), idxO
   | [] => rfl
   | l :: r => by simp [idxOf, idxOf_old fresh a r]
 
-/-- **`ops::update`, both stages, one worker, the code as it is**: on a well-formed non-empty tree and an ascending batch
-(possibly empty) it reaches no panic site, and `UpdateOK` holds. -/
+/-- **`ops::update`, both stages, one worker, the code as it is**: on a well-formed tree (possibly empty) and an ascending
+batch (possibly empty) it reaches no panic site, and `UpdateOK` holds. -/
 theorem update_spec (pagesOf : V → List Nat) (lnFresh bbnFresh : Nat → Nat) (a0 : Nat) (t : Tree V)
     (cs : List (Nat × Option (V × Bool))) (lo : Nat) (ht : TreeOK t) (hcs : LeafUpd.ChOK (2 ^ 256) lo cs)
     (ha0 : cs = [] → a0 = 0) :
@@ -140,8 +143,10 @@ theorem update_spec (pagesOf : V → List Nat) (lnFresh bbnFresh : Nat → Nat) 
       cases e; exact hy
     · rw [lvlOf_old, hlvl0]
       symm
+      by_cases hle : t.leaves = []
+      · rw [hle]; rfl
       apply relabel0_of_head_zero (lvlEnts_sorted (by unfold LvlAsc; rw [List.pairwise_map]; exact (List.pairwise_map).1 hsasc))
-      obtain ⟨l, r, hl⟩ := List.exists_cons_of_ne_nil ht.ne
+      obtain ⟨l, r, hl⟩ := List.exists_cons_of_ne_nil hle
       rw [getE_lvlEnts_db]
       have : (0 : Nat) ∈ t.leaves.map (·.sep) := by rw [hl]; simp [ht.leaves.zero l (by rw [hl]; rfl)]
       simp [this]
@@ -164,7 +169,7 @@ theorem update_spec (pagesOf : V → List Nat) (lnFresh bbnFresh : Nat → Nat) 
         simp only [decide_eq_true_eq, Decidable.not_not]
         exact List.mem_map.2 ⟨l, hl, rfl⟩
       rw [this]; exact List.Perm.refl _
-  · obtain ⟨lo', hleaf, hl⟩ := leafStage_spec pagesOf t.lpn lnFresh a0 t.leaves cs lo ht.leaves ht.ne hcs hcse
+  · obtain ⟨lo', hleaf, hl⟩ := leafStage_spec pagesOf t.lpn lnFresh a0 t.leaves cs lo ht.leaves hcs hcse
     rw [← ht.level] at hleaf
     have hcsne : cs.isEmpty = false := by cases cs with | nil => exact absurd rfl hcse | cons _ _ => rfl
     by_cases hlcs : lo'.changeset = []
@@ -194,7 +199,12 @@ theorem update_spec (pagesOf : V → List Nat) (lnFresh bbnFresh : Nat → Nat) 
           exact List.mem_map.2 ⟨l, hl', rfl⟩
         rw [this]; exact List.Perm.refl _
     · obtain ⟨bo, rel, hbranch, hbrun, hbok, hbflat, hbidx, hbasc, hbfreed, hballoc, hbolds⟩ :=
-        branchStage_spec bbnFresh t.index lo'.changeset ht.index ht.index_ne ht.index_zero hl.cs_asc hl.keys_lt hlcs
+        branchStage_spec bbnFresh t.index lo'.changeset ht.index (by
+          by_cases hle : t.leaves = []
+          · right
+            obtain ⟨c, r, hc⟩ := List.exists_cons_of_ne_nil hlcs
+            exact ⟨c, by rw [hc]; simp, hl.nones hle c (by rw [hc]; simp)⟩
+          · exact Or.inl (ht.index_ne hle)) ht.index_zero hl.cs_asc hl.keys_lt hlcs
       have hres : update LeafUpd.sepReal kfReal pagesOf lnFresh bbnFresh false t cs a0 =
           some { index := bo.index, leafChangeset := lo'.changeset, lnFreed := lo'.freed, bbnFreed := bo.freed,
                  lnAllocs := lo'.allocs, bbnAllocs := bo.allocs, submittedIo := lo'.submittedIo + bo.submittedIo,
